@@ -261,7 +261,7 @@ fn replay(path: &std::path::Path) -> i32 {
 }
 
 pub fn run(ctx: &Ctx) -> i32 {
-    std::panic::set_hook(Box::new(|_| {}));
+    crate::common::report::quiet_panics();
     pipeline::install();
     if let Err(e) = pipeline::wire_self_test() {
         machinery_failure(&e);
